@@ -776,6 +776,8 @@ func checkC19(r *Report) {
 	keyTablesRule(r, p, "resolve/version", "resolve/internal/versiontest", false)
 	// f. QUOTE-AGREE
 	quoteAgreeRule(r, p, "C19.f/QUOTE-AGREE", "resolve/internal/versiontest.String", "resolve/internal/versiontest.ParseString")
+	// i. VALUE-WRITTEN
+	valueWrittenRule(r, p, "C19.i/VALUE-WRITTEN", "resolve/internal/versiontest.String")
 	// g. comparators of attribute sets: deterministic and mirrored
 	cfs := threeWayFns(p, "resolve/internal/attr", "resolve/dep", "resolve/version")
 	noWideSubtractRule(r, p, "C19.g/NO-WIDE-SUBTRACT", cfs)
@@ -865,8 +867,15 @@ func quoteAgreeRule(r *Report, p *Prog, rule, writer, reader string) {
 	}
 	quotes, nw := uses(wf, isStrconv("Quote"))
 	unquotes, nr := uses(rf, isStrconv("Unquote"))
+	// does the parser cut its input at white space with no regard for quotes?
+	splits, _ := uses(rf, func(c ssa.CallInstruction) bool {
+		sc := c.Common().StaticCallee()
+		return sc != nil && sc.Pkg != nil && sc.Pkg.Pkg.Path() == "strings" && (sc.Name() == "Fields" || sc.Name() == "Split" || sc.Name() == "SplitN" || sc.Name() == "FieldsFunc")
+	})
 	key := fnKey(wf) + " / " + fnKey(rf) + ": quoting"
-	if quotes == unquotes {
+	if !quotes && !unquotes && splits {
+		r.bad(rule, key, p.pos(rf.Pos()), "neither side quotes, and the parser cuts its input into fields at separators: a value that contains white space is written verbatim and read back as a value followed by unknown keys, so write-then-parse fails or gives an unequal set")
+	} else if quotes == unquotes {
 		how := "neither side quotes: values are written and read verbatim"
 		if quotes {
 			how = "the writer quotes and the parser unquotes"
@@ -878,6 +887,89 @@ func quoteAgreeRule(r *Report, p *Prog, rule, writer, reader string) {
 		r.bad(rule, key, p.pos(wf.Pos()), "the writer quotes values but the parser documented as its inverse reads them verbatim: every value comes back with quotes added")
 	}
 	r.floor(rule, "calls inspected in the writer and the parser", nw+nr, 6)
+	// A value is unquoted once: no Unquote call of the parser (or of a helper
+	// it calls) takes text that already came out of an Unquote call or of a
+	// helper that unquotes.
+	unq := isStrconv("Unquote")
+	unquoting := func(f *ssa.Function) bool { h, _ := uses(f, unq); return h }
+	var derivesUnquoted func(v ssa.Value, d int, seen map[ssa.Value]bool) bool
+	derivesUnquoted = func(v ssa.Value, d int, seen map[ssa.Value]bool) bool {
+		if d > 10 || seen[v] {
+			return false
+		}
+		seen[v] = true
+		switch x := v.(type) {
+		case *ssa.Call:
+			if unq(x) {
+				return true
+			}
+			if sc := x.Common().StaticCallee(); sc != nil {
+				if p.inScope(sc) && sc.Pkg == rf.Pkg {
+					return unquoting(sc)
+				}
+				if sc.Pkg != nil && sc.Pkg.Pkg.Path() == "strings" {
+					for _, a := range x.Common().Args {
+						if derivesUnquoted(a, d+1, seen) {
+							return true
+						}
+					}
+				}
+			}
+		case *ssa.Extract:
+			return derivesUnquoted(x.Tuple, d+1, seen)
+		case *ssa.Phi:
+			for _, e := range x.Edges {
+				if derivesUnquoted(e, d+1, seen) {
+					return true
+				}
+			}
+		case *ssa.UnOp:
+			return derivesUnquoted(x.X, d+1, seen)
+		case *ssa.IndexAddr:
+			return derivesUnquoted(x.X, d+1, seen)
+		case *ssa.Slice:
+			return derivesUnquoted(x.X, d+1, seen)
+		case *ssa.Lookup:
+			return derivesUnquoted(x.X, d+1, seen)
+		case *ssa.Alloc:
+			for _, ref := range *x.Referrers() {
+				if st, ok := ref.(*ssa.Store); ok && st.Addr == x && derivesUnquoted(st.Val, d+1, seen) {
+					return true
+				}
+			}
+		}
+		return false
+	}
+	nU := 0
+	fseen := map[*ssa.Function]bool{}
+	var scan func(g *ssa.Function, d int)
+	scan = func(g *ssa.Function, d int) {
+		if fseen[g] || d > 3 {
+			return
+		}
+		fseen[g] = true
+		for _, b := range g.Blocks {
+			for _, in := range b.Instrs {
+				c, ok := in.(*ssa.Call)
+				if !ok {
+					continue
+				}
+				if unq(c) && len(c.Common().Args) > 0 {
+					nU++
+					k := fmt.Sprintf("%s: Unquote #%d takes text not yet unquoted", fnKey(rf), nU)
+					if derivesUnquoted(c.Common().Args[0], 0, map[ssa.Value]bool{}) {
+						r.bad(rule, k, p.pos(c.Pos()), "this Unquote call takes text that an earlier Unquote (or a helper that unquotes) produced: a value that is itself a quoted literal loses its quotes on the way back")
+					} else {
+						r.ok(rule, k, p.pos(c.Pos()), "operand does not derive from unquoted text")
+					}
+				}
+				if sc := c.Common().StaticCallee(); sc != nil && p.inScope(sc) && sc.Pkg == g.Pkg {
+					scan(sc, d+1)
+				}
+			}
+		}
+	}
+	scan(rf, 0)
 }
 
 func keyTablesRule(r *Report, p *Prog, keyPkg, testPkg string, checkString bool) {
@@ -1213,4 +1305,201 @@ func markerOpDomainRule(r *Report, p *Prog, pk *packages.Package, opConsts []*ty
 		}
 	}
 	r.floor(rule, "marker operators considered", n, 9)
+}
+
+// valueWrittenRule: the parser of the attribute text form consumes a value
+// token after every key that is not a flag (it tests its flagKeys table). The
+// writer documented as its inverse must make the same decision: after the key
+// token, every path to the next key writes a token derived from the value,
+// except the path taken when a lookup in a bool-valued key table says the key
+// is a flag. A writer that decides on the value itself (value != "") writes a
+// valued key holding "" as a flag, which the parser then refuses or, worse,
+// completes with the next key's name.
+func valueWrittenRule(r *Report, p *Prog, rule, writer string) {
+	wf := p.lookupFn(writer)
+	if wf == nil {
+		r.bad(rule, writer, "", "writer not found: anchor lost")
+		return
+	}
+	n := 0
+	for _, b := range wf.Blocks {
+		for _, in := range b.Instrs {
+			c, ok := in.(*ssa.Call)
+			if !ok {
+				continue
+			}
+			sc := c.Common().StaticCallee()
+			if sc == nil || sc.Name() != "GetAttr" || c.Type().(*types.Tuple) == nil {
+				continue
+			}
+			var val, okv ssa.Value
+			for _, ref := range *c.Referrers() {
+				if ex, isEx := ref.(*ssa.Extract); isEx {
+					if ex.Index == 0 {
+						val = ex
+					} else {
+						okv = ex
+					}
+				}
+			}
+			n++
+			key := fmt.Sprintf("%s: value of GetAttr #%d follows its key unless the key is a flag", fnKey(wf), n)
+			if okv == nil {
+				r.bad(rule, key, p.pos(c.Pos()), "the presence result of GetAttr is not used: cannot locate the branch that writes the key")
+				continue
+			}
+			var start *ssa.BasicBlock
+			for _, ref := range *okv.Referrers() {
+				if iff, isIf := ref.(*ssa.If); isIf {
+					start = iff.Block().Succs[0]
+				}
+			}
+			if start == nil {
+				r.bad(rule, key, p.pos(c.Pos()), "the presence result of GetAttr does not decide a branch: cannot locate the branch that writes the key")
+				continue
+			}
+			if val == nil {
+				r.bad(rule, key, p.pos(c.Pos()), "the value returned by GetAttr is discarded: a valued key is written without its value")
+				continue
+			}
+			dep := map[ssa.Value]bool{}
+			var depends func(v ssa.Value, d int) bool
+			depends = func(v ssa.Value, d int) bool {
+				if v == val {
+					return true
+				}
+				if d > 8 {
+					return false
+				}
+				if known, seen := dep[v]; seen {
+					return known
+				}
+				dep[v] = false
+				res := false
+				switch x := v.(type) {
+				case *ssa.Phi:
+					for _, e := range x.Edges {
+						res = res || depends(e, d+1)
+					}
+				case *ssa.Call:
+					for _, a := range x.Common().Args {
+						res = res || depends(a, d+1)
+					}
+				case *ssa.BinOp:
+					res = depends(x.X, d+1) || depends(x.Y, d+1)
+				case *ssa.Convert:
+					res = depends(x.X, d+1)
+				case *ssa.ChangeType:
+					res = depends(x.X, d+1)
+				case *ssa.MakeInterface:
+					res = depends(x.X, d+1)
+				case *ssa.Slice:
+					res = depends(x.X, d+1)
+				case *ssa.Extract:
+					res = depends(x.Tuple, d+1)
+				}
+				dep[v] = res
+				return res
+			}
+			writesValue := func(in ssa.Instruction) bool {
+				ac, ok := in.(*ssa.Call)
+				if !ok {
+					return false
+				}
+				bi, ok := ac.Common().Value.(*ssa.Builtin)
+				if !ok || bi.Name() != "append" || len(ac.Common().Args) != 2 {
+					return false
+				}
+				arg := ac.Common().Args[1]
+				if depends(arg, 0) {
+					return true
+				}
+				sl, ok := arg.(*ssa.Slice)
+				if !ok {
+					return false
+				}
+				al, ok := sl.X.(*ssa.Alloc)
+				if !ok {
+					return false
+				}
+				for _, ref := range *al.Referrers() {
+					ia, ok := ref.(*ssa.IndexAddr)
+					if !ok {
+						continue
+					}
+					for _, r2 := range *ia.Referrers() {
+						if st, ok := r2.(*ssa.Store); ok && st.Addr == ia && depends(st.Val, 0) {
+							return true
+						}
+					}
+				}
+				return false
+			}
+			// the true edge of a test of a bool-valued key table is the flag path
+			flagEdge := func(from *ssa.BasicBlock, succ int) bool {
+				iff, ok := from.Instrs[len(from.Instrs)-1].(*ssa.If)
+				if !ok || succ != 0 {
+					return false
+				}
+				cond := iff.Cond
+				if ex, ok := cond.(*ssa.Extract); ok {
+					cond = ex.Tuple
+				}
+				lk, ok := cond.(*ssa.Lookup)
+				if !ok {
+					return false
+				}
+				mt, ok := lk.X.Type().Underlying().(*types.Map)
+				if !ok {
+					return false
+				}
+				bt, ok := mt.Elem().Underlying().(*types.Basic)
+				if !ok || bt.Kind() != types.Bool {
+					return false
+				}
+				un, ok := lk.X.(*ssa.UnOp)
+				if !ok {
+					return false
+				}
+				_, isGlobal := un.X.(*ssa.Global)
+				return isGlobal
+			}
+			// walk from the branch taken when the key is present
+			seen := map[*ssa.BasicBlock]bool{}
+			var offending *ssa.BasicBlock
+			var walk func(bb *ssa.BasicBlock)
+			walk = func(bb *ssa.BasicBlock) {
+				if offending != nil || seen[bb] {
+					return
+				}
+				if bb == b { // back at the GetAttr call: next key, nothing written for the value
+					offending = bb
+					return
+				}
+				seen[bb] = true
+				for _, in2 := range bb.Instrs {
+					if writesValue(in2) {
+						return
+					}
+				}
+				if _, isRet := bb.Instrs[len(bb.Instrs)-1].(*ssa.Return); isRet {
+					offending = bb
+					return
+				}
+				for i, s := range bb.Succs {
+					if flagEdge(bb, i) {
+						continue
+					}
+					walk(s)
+				}
+			}
+			walk(start)
+			if offending != nil {
+				r.bad(rule, key, p.pos(c.Pos()), "a path from the branch that writes the key reaches the next key (or the end) without writing a token derived from the value and without a flag-table test: a valued key holding an empty value is written like a flag, which the parser refuses or completes with the next key's name")
+			} else {
+				r.ok(rule, key, p.pos(c.Pos()), "every path from the key token writes the value, or leaves on the true edge of a flag-table test")
+			}
+		}
+	}
+	r.floor(rule, "GetAttr calls in the writer", n, 1)
 }
